@@ -197,6 +197,13 @@ func (ev *Ev) specCall(x *ast.CallExpr) Value {
 		}
 		_, val, _, _, vs := ev.mapFams(mt, "", es)
 		return Value{K: vScalar, T: app("select", u.fam(ev.st, val, vs), m.T), S: arraySort(ks, es)}
+	case "zeros":
+		// zeros(x): the all-default value of x's sort (empty ghost map at any nesting depth)
+		xv := ev.expr(x.Args[0])
+		if xv.K != vScalar {
+			return ev.errorf(x.Pos(), "zeros needs a scalar or ghost-map value")
+		}
+		return Value{K: vScalar, T: u.zeroOf(xv.S), S: xv.S, Typ: xv.Typ}
 	case "nokeys":
 		// nokeys(): the empty key set (for ghost maps of type map[string]bool and the like, keyed by references)
 		ss := arraySort(SRef, SBool)
